@@ -228,9 +228,9 @@ def check_ma(x, Q, M, tag):
     br, rhor, kap = ma_ref(x, Q, M)
     if kap < 1e6:
         if np.max(np.abs(br - b)) > 1e-8 * kap * max(1, np.max(np.abs(br))):
-            bad.append(('ma_is_yw_of_yw/ma/' + tag, 'MA part is not the Yule-Walker solution of the long-AR polynomial (dev %.3g)' % np.max(np.abs(br - b))))
+            bad.append(('model/ma_is_yw_of_yw/ma/' + tag, 'MA part is not the Yule-Walker solution of the long-AR polynomial (dev %.3g)' % np.max(np.abs(br - b))))
         if abs(rhor - rho) > 1e-8 * kap * abs(rhor):
-            bad.append(('ma_rho/ma/' + tag, 'variance is not the order-M Yule-Walker error power'))
+            bad.append(('model/ma_rho/ma/' + tag, 'variance is not the order-M Yule-Walker error power'))
     return bad
 
 
@@ -255,12 +255,12 @@ def check_arma(x, P, Q, lag, tag):
     if P > 0:
         sc = max(np.linalg.norm(Xc, 2), 1e-300)
         res = Xc.conj().T @ (X1 + Xc @ a) if len(X1) else np.zeros(P)
-        if np.max(np.abs(res)) > 1e-7 * sc * max(np.linalg.norm(X1), sc * np.linalg.norm(a), 1e-300):
-            bad.append(('arma_ar_normal_eq/arma_estimate/' + tag, 'AR part does not satisfy the normal equations of the covariance method (residual %.3g)' % np.max(np.abs(res))))
+        if np.max(np.abs(res)) > 1e-7 * sc * max(np.linalg.norm(X1), sc * max(np.linalg.norm(a), 1.0)):
+            bad.append((('arma_ar_is_myw_ls' if P == Q else 'model/arma_ar_normal_eq') + '/arma_estimate/' + tag, 'AR part does not satisfy the normal equations of the covariance method (residual %.3g)' % np.max(np.abs(res))))
         if P == Q:
             A, bb = myw_system(R, P, Q, lag)
             res2 = A.conj().T @ (A @ a - bb) if len(bb) else np.zeros(P)
-            if np.max(np.abs(res2)) > 1e-7 * sc * max(np.linalg.norm(bb), sc * np.linalg.norm(a), 1e-300):
+            if np.max(np.abs(res2)) > 1e-7 * sc * max(np.linalg.norm(bb), sc * max(np.linalg.norm(a), 1.0)):
                 bad.append(('arma_ar_is_myw_ls/arma_estimate/' + tag, 'AR part does not satisfy the normal equations of the modified Yule-Walker system over lags Q+1..lag (residual %.3g)' % np.max(np.abs(res2))))
             if lag - Q >= P:
                 kap = np.linalg.cond(A)
@@ -274,7 +274,7 @@ def check_arma(x, P, Q, lag, tag):
     br, rhor, kap = ma_ref(e, Q, 2 * Q)
     if kap < 1e6:
         if np.max(np.abs(br - b)) > 1e-8 * kap * max(1, np.max(np.abs(br))) or abs(rhor - rho) > 1e-8 * kap * abs(rhor):
-            bad.append(('arma_residual_ma/arma_estimate/' + tag, 'MA part / variance are not ma(x*[1,a] on n=P..N-1, Q, 2Q)'))
+            bad.append(('model/arma_residual_ma/arma_estimate/' + tag, 'MA part / variance are not ma(x*[1,a] on n=P..N-1, Q, 2Q)'))
     return bad
 
 
@@ -354,10 +354,12 @@ def replay(rep):
         try:
             x = vlib.unhexv(r['x'])
             if f == 'ma':
-                return not check_ma(x, r['Q'], r['M'], 'replay')
-            if f == 'arma_estimate':
-                return not check_arma(x, r['P'], r['Q'], r['lag'], 'replay')
-            return not check_class(f, x, r['prm'], r['NFFT'], r['sampling'], r['sbf'], 'replay')
+                bad = check_ma(x, r['Q'], r['M'], 'replay')
+            elif f == 'arma_estimate':
+                bad = check_arma(x, r['P'], r['Q'], r['lag'], 'replay')
+            else:
+                bad = check_class(f, x, r['prm'], r['NFFT'], r['sampling'], r['sbf'], 'replay')
+            return not [b for b in bad if not b[0].startswith('model/')]
         except Exception:
             return False
 
@@ -655,12 +657,19 @@ def run(ctx):
 
     lap('corr_class')
     # ---------------- search on the implementation
+    nmis = [0]
+
     def viol(bad, rep):
+        """clauses of the property -> violation with replay; 'model/...' = the implementation left the model on a search input"""
         for key, what in bad:
-            ctx.violation(key, what, rep)
+            if key.startswith('model/'):
+                nmis[0] += 1
+                ctx.corr_disagreement('search:' + key[6:], nmis[0], dict([('what', what)] + [(k, v) for k, v in rep.items() if k != 'x'] + [('x', rep['x'])]))
+            else:
+                ctx.violation(key, what, rep)
 
     styles = ['noise', 'arma', 'arma', 'int', 'scaled']
-    for it in range(ctx.q(160, 1500)):
+    for it in range(ctx.q(700, 6000)):
         cplx = bool(rng.integers(0, 2)); tag = 'complex' if cplx else 'real'
         N = int(rng.integers(16, ctx.q(129, 257))); style = str(rng.choice(styles))
         x = gen_data(rng, N, cplx, style)
@@ -719,9 +728,23 @@ def run(ctx):
 
     lap('search')
     # ---------------- the rest of the stated domain: fewer modified Yule-Walker equations than unknowns (lag < 2P)
-    for it in range(ctx.q(60, 400)):
+    for it in range(ctx.q(150, 1000)):
         cplx = bool(rng.integers(0, 2)); tag = 'complex' if cplx else 'real'
         N = int(rng.integers(16, 65)); P = int(rng.integers(1, 9)); Q = int(rng.integers(1, 6))
+        if it % 10 == 9:
+            # the statement does not ask for lag < N either
+            Q = int(rng.integers(2, max(3, (N - P - 1) // 2 + 1))); lag = N + int(rng.integers(0, 3))
+            if not (0 < Q <= lag and lag + 2 * P - Q <= N and 2 * Q < N - P):
+                continue
+            x = gen_data(rng, N, cplx, 'noise')
+            rep = {'function': 'arma_estimate', 'x': vlib.hexv(x), 'P': P, 'Q': Q, 'lag': lag}
+            ctx.count('search/arma-lag_ge_N'); ctx.case(('search-arma-lagN', x.tobytes(), P, Q, lag), nontrivial=True)
+            try:
+                with np.errstate(all='ignore'):
+                    viol(check_arma(x, P, Q, lag, 'lag_ge_N'), rep)
+            except Exception as e:
+                ctx.violation('arma_returns/arma_estimate/lag_ge_N', 'arguments in the stated domain (Q<=lag, lag+2P-Q<=N, 2Q<N-P) with lag >= N: arma_estimate raised %r' % (e,), rep)
+            continue
         lag = int(rng.integers(Q, max(2 * P, Q + 1)))
         if not (in_domain(N, P, Q, lag) and lag < 2 * P):
             continue
